@@ -638,6 +638,82 @@ pub fn c20_process_part(ctx: &Ctx, scanned: &AtomicU64) -> Result<u64, String> {
             }
         }
     }
+    // every point of the C16 configuration grid (one deviation from the minimal base and from the
+    // base with every optional key set, per-client statistics with and without a directory), both
+    // sources: error paths are where a configuration value is most likely to be echoed
+    {
+        use crate::checks::c16;
+        let seed_hex = BASE_SEED_HEX;
+        let seed: [u8; 32] = rtref::crypto::unhex(seed_hex).try_into().unwrap();
+        let sc = Scanner::for_seed(&seed);
+        let pdir = scratch_dir();
+        let pdir_s = pdir.display().to_string();
+        let g = c16::grid(&pdir_s);
+        let mut cases: Vec<(Written, Source, String)> = vec![];
+        for (key, lit, _) in &g {
+            if *key == "seed" {
+                continue; // the written seed differs from the scanned one on these points
+            }
+            for base_kind in 0..3 {
+                let mut w = Written::base(0);
+                match base_kind {
+                    0 => {}
+                    1 => {
+                        for (k, v) in [("batch_size", "32"), ("status_interval", "10"), ("fault_percentage", "25"), ("client_stats", "on")] {
+                            w.set(k, v);
+                        }
+                        w.set("persistence_directory", &pdir_s);
+                    }
+                    _ => {
+                        // per-client statistics requested without a directory (refused)
+                        w.set("client_stats", "on");
+                    }
+                }
+                w.set("num_workers", "2");
+                w.set(key, lit);
+                for src in [Source::File, Source::Env] {
+                    cases.push((w.clone(), src, format!("{}={}", key, lit)));
+                }
+            }
+        }
+        let n = std::sync::atomic::AtomicU64::new(0);
+        let failed: std::sync::Mutex<Option<String>> = std::sync::Mutex::new(None);
+        crate::util::par_for(cases.len(), 1, |k, _| {
+            let (w0, src, what) = &cases[k];
+            let mut w = w0.clone();
+            if w.get("port") == Some("0") {
+                w.set("port", &free_port().to_string());
+            }
+            let mut sp = match ServerProc::start(&w, *src, &[]) {
+                Ok(s) => s,
+                Err(e) => {
+                    *failed.lock().unwrap() = Some(e);
+                    return;
+                }
+            };
+            sp.wait_started(2, Duration::from_secs(3));
+            if sp.try_status().is_none() {
+                sp.signal(libc::SIGINT);
+                let _ = sp.wait_exit(Duration::from_secs(5));
+            }
+            n.fetch_add(1, Relaxed);
+            let so = sp.stdout();
+            let se = sp.stderr();
+            for (wh, text) in [("stdout", so.as_bytes()), ("stderr", se.as_bytes())] {
+                scanned.fetch_add(text.len() as u64, Relaxed);
+                if let Some(p) = sc.scan(text) {
+                    let line = String::from_utf8_lossy(text).lines().find(|l| sc.scan(l.as_bytes()).is_some()).unwrap_or("").to_string();
+                    ctx.violation("secret-in-process-output", p.split('/').next().unwrap_or("?"), "config-grid", json!({"kind":"process","variant":what,"written":w.to_json(),"source":format!("{:?}", src),"where":wh,"pattern":p,"line":line.chars().take(300).collect::<String>()}));
+                }
+            }
+            sp.kill();
+        });
+        let _ = std::fs::remove_dir_all(&pdir);
+        if let Some(e) = failed.lock().unwrap().take() {
+            return Err(e);
+        }
+        runs += n.load(Relaxed);
+    }
     Ok(runs)
 }
 
